@@ -84,3 +84,17 @@ package cmd
 
 //@ func cmd.compareTreesCmd.RunE
 //@   flag noframe
+
+// ---------------------------------------------------------------------------
+// Seeding (properties C18, C19): before every command the global generator is seeded exactly once, with the
+// value of --seed; only the documented default -1 is replaced by the clock
+// ---------------------------------------------------------------------------
+
+//@ func cmd.RootCmd.PersistentPreRun
+//@   flag noframe
+//@   flag countcalls
+//@   call math/rand.Seed [a_given_seed_is_used_as_it_is_only_minus_one_means_the_clock] old(seed) != -1 ==> a0 == old(seed)
+//@   call time.Now [the_clock_is_read_only_for_the_default_seed] old(seed) == -1
+//@   ensures [seeded_exactly_once] ghost(ncalls_Seed) == old(ghost(ncalls_Seed)) + 1
+//@   ensures [a_given_seed_is_left_as_it_is] old(seed) != -1 ==> seed == old(seed)
+//@   ensures [the_default_seed_means_the_clock_whether_written_out_or_omitted] old(seed) == -1 ==> ghost(ncalls_Now) == old(ghost(ncalls_Now)) + 1
